@@ -127,6 +127,17 @@ func Family(maxRecs int) []File {
 			}
 		}
 	}
+	// an EMPTY block (count 0, empty payload) is legal wherever a block is: first, between and after full ones
+	{
+		sc := Schemas()[1]
+		for _, codec := range []string{"null", "deflate", "snappy"} {
+			for _, comp := range [][]int{{1, 0, 2}, {0, 1}, {2, 0}, {0}, {0, 0, 1}} {
+				f := Build(sc, codec, comp, sc.Records)
+				f.Name += "/with-empty-block"
+				fs = append(fs, f)
+			}
+		}
+	}
 	// sync markers with special shapes (all legal): ending in zero bytes, all zero, all 0xff
 	for si, sy := range [][16]byte{{0xde, 0xad, 0xbe, 0xef, 1, 2, 3, 4, 5, 6, 7, 8, 9, 10, 0, 0}, {}, {0xff, 0xff, 0xff, 0xff, 0xff, 0xff, 0xff, 0xff, 0xff, 0xff, 0xff, 0xff, 0xff, 0xff, 0xff, 0xff}} {
 		sc := Schemas()[1]
